@@ -99,5 +99,6 @@ native_unit("boundary_native", "winter-air", "air", "native/boundary_bounded.rs"
             "NATIVE EXECUTION, not a proof: trace lengths 8, 16, 32 x 2 columns x every single / periodic / sequence assertion: all single assertions, all ordered pairs, 3000 seeded triples per length; exemptions: trace lengths 8..64 x every count 0..=len x constraint degrees 1..9 alone, in pairs and with periodic cycles; 128-bit field")
 
 
-verus_unit("friverifv", "friverifv", ["C05", "C04"], [
+verus_unit("friverifv", "friverifv", ["C05", "C04", "C15"], [
+    "FriOptions::num_fri_layers (every domain size, folding factor >= 2, blowup and remainder degree: the number of floor-divisions by the folding factor until the domain is at most (remainder_max_degree + 1) * blowup; terminates; at most 64)",
     "FriVerifier::new (every number of layer commitments, folding factor and degree bound, abstract channel / coin / field: a commitment list of the wrong length is refused before the coin is touched; otherwise the coin sees exactly reseed(c_0), draw, reseed(c_1), draw, ... and the challenge stored for layer i is the one drawn after c_i; DegreeTruncation exactly at the first non-final depth whose running degree bound plus one is not a multiple of the folding factor; the verifier keeps the commitments, the degree bound and the domain size it was given)"])
